@@ -11,7 +11,7 @@ from ..model import Model, numel
 from ..seeds import digest
 from ..shrinkspec import spec_candidates
 from ..spec import gen_mtl, gen_program
-from ..world import EPS, World, compare, default_inputs_backward, default_params_mtl, expect_backward, expect_mtl, gen_sched, run_call
+from ..world import spec_eps, EPS, World, compare, default_inputs_backward, default_params_mtl, expect_backward, expect_mtl, gen_sched, run_call
 from . import c02 as C02
 
 ID = "C13"
@@ -275,7 +275,7 @@ def _one_stage_equivalent(spec, model, call, roles):
 
 def execute(scn):
     spec = scn["spec"]
-    eps = EPS[spec["dtype"]]
+    eps = spec_eps(spec)
     model = Model(spec)
     world = World(spec, scn["sched"])
     twin = World(spec, scn["twin_sched"], twin_offset=1 << 20)
